@@ -36,9 +36,35 @@ class _JExec(SymExec):
     arbitrary total order on the two fragments' pairs: `x_first` says whether x's pair
     sorts before y's.  Both views of a junction are evaluated under the same order."""
 
-    def __init__(self, repo, x_first):
+    def __init__(self, repo, x_first, name_cmp=None, coord_cmp=None):
         super().__init__(repo)
-        self.x_first = x_first
+        # order of x's (name, coordinate) pair relative to y's: names compare as name_cmp (-1, 0, 1); equal names are
+        # ordered by the facing coordinates (coord_cmp).  x_first is the resulting order of the pairs.
+        if name_cmp is None:
+            name_cmp, coord_cmp = (-1, -1) if x_first else (1, 1)
+        self.name_cmp, self.coord_cmp = name_cmp, coord_cmp
+        self.x_first = name_cmp < 0 or (name_cmp == 0 and coord_cmp < 0)
+
+    def compare(self, op, a, b, node, st=None):
+        def owner(v):
+            while isinstance(v, Str):
+                v = v.v
+            if isinstance(v, Sym) and v.name[:2] in ("x.", "y."):
+                return v.name[0], v.name[2:]
+            return None, None
+
+        (oa, fa), (ob, fb) = owner(a), owner(b)
+        if oa and ob and oa != ob and fa == fb:
+            c = self.name_cmp if fa == "_name" else self.coord_cmp if fa in ("_start", "_end") else None
+            if c is not None:
+                if oa == "y":
+                    c = -c
+                from ..sym import B
+
+                res = {ast.Lt: c < 0, ast.LtE: c <= 0, ast.Gt: c > 0, ast.GtE: c >= 0, ast.Eq: c == 0, ast.NotEq: c != 0}.get(type(op))
+                if res is not None:
+                    return B("const", res)
+        return super().compare(op, a, b, node, st)
 
     def call_hook(self, st, node, fval, args, kwargs, func):
         if dotted(node.func) == "sorted" and len(args) == 1 and isinstance(args[0], Tup) and len(args[0].items) == 2 and "key" not in kwargs:
@@ -77,8 +103,8 @@ class _JExec(SymExec):
         return NotImplemented
 
 
-def _jt(repo, f, frag, x_name, x_strand, y_name, y_strand, x_first=True):
-    ex = _JExec(repo, x_first)
+def _jt(repo, f, frag, x_name, x_strand, y_name, y_strand, x_first=True, order=None):
+    ex = _JExec(repo, x_first, *(order or (None, None)))
     st = State()
     st.heap[(x_name, "_strand")] = Lin.const(x_strand)
     st.heap[(y_name, "_strand")] = Lin.const(y_strand)
@@ -134,6 +160,26 @@ def run(repo: Repo, L: Ledger, tier: str):
                 jt.loc(), witness={"scaffold": f"[x{STRANDS[sx]}, gap, y{STRANDS[sy]}]", "forward": t, "reversed": t2},
             )
     L.floor("R1", "strand cases × pair orders", n, 8)
+    # the same under every order of the two contigs' names (<, ==, >) and facing coordinates: canonical ordering
+    # written with direct comparisons instead of sorted() on (name, coordinate) pairs is decided here
+    n2 = 0
+    for sx in (1, -1):
+        for sy in (1, -1):
+            for name_cmp in (-1, 0, 1):
+                for coord_cmp in (-1, 1):
+                    t = _jt(repo, jt, frag, "x", sx, "y", sy, order=(name_cmp, coord_cmp))
+                    t2 = _jt(repo, jt, frag, "y", -sy, "x", -sx, order=(name_cmp, coord_cmp))
+                    if t is None or t2 is None:
+                        continue
+                    n2 += 1
+                    rel = {-1: "<", 0: "==", 1: ">"}
+                    L.check(
+                        t == t2, "R1", f"{jt.short}({STRANDS[sx]},{STRANDS[sy]})[name x{rel[name_cmp]}y, coord x{rel[coord_cmp]}y]",
+                        "same tuple from the reversed scaffold",
+                        f"strands ({STRANDS[sx]},{STRANDS[sy]}), contig names x {rel[name_cmp]} y, facing coordinates x {rel[coord_cmp]} y: encoded as {t} but as {t2} in the reversed scaffold: reversing a whole scaffold is counted as 1 break + 1 join",
+                        jt.loc(), witness={"names": f"x {rel[name_cmp]} y", "forward": t, "reversed": t2},
+                    )
+    L.floor("R1", "strand cases × name/coordinate orders", n2, 16)
 
     _r2(repo, L)
     _r3(repo, L)
@@ -198,6 +244,30 @@ def _r2(repo, L):
             if d in ("itertools.pairwise", "pairwise") and len(jcalls) == 1:
                 u, v = (e.id for e in lp.target.elts)
                 ok = is_name(jcalls[0].func.value, u) and is_name(jcalls[0].args[0], v)
+    # idiom (iv): a comprehension over pairwise(<fragments>) / zip(l, l[1:])
+    for cp in [n for n in walk_shallow(f.node) if isinstance(n, ast.SetComp | ast.GeneratorExp | ast.ListComp) and len(n.generators) == 1 and not n.generators[0].ifs]:
+        g = cp.generators[0]
+        if not (isinstance(g.iter, ast.Call) and isinstance(g.target, ast.Tuple) and len(g.target.elts) == 2 and all(isinstance(e, ast.Name) for e in g.target.elts)):
+            continue
+        d = dotted(g.iter.func)
+        u, v = (e.id for e in g.target.elts)
+        src_ok = False
+        if d in ("itertools.pairwise", "pairwise") and len(g.iter.args) == 1:
+            a0 = g.iter.args[0]
+            src_txt = norm(a0)
+            if isinstance(a0, ast.Name):
+                ds = [n.value for n in walk_shallow(f.node) if isinstance(n, ast.Assign) and is_name(n.targets[0], a0.id)]
+                src_txt = norm(ds[0]) if len(ds) == 1 else src_txt
+            src_ok = src_txt in ("self.fragments()", "list(self.fragments())", "tuple(self.fragments())")
+        elif d == "zip" and len(g.iter.args) == 2:
+            a0, a1 = g.iter.args
+            if isinstance(a0, ast.Name) and isinstance(a1, ast.Subscript) and norm(a1.value) == a0.id and norm(a1.slice) == "1:":
+                ds = [n.value for n in walk_shallow(f.node) if isinstance(n, ast.Assign) and is_name(n.targets[0], a0.id)]
+                src_ok = len(ds) == 1 and norm(ds[0]) in ("list(self.fragments())", "tuple(self.fragments())", "[*self.fragments()]")
+        e = cp.elt
+        if src_ok and isinstance(e, ast.Call) and isinstance(e.func, ast.Attribute) and e.func.attr == "junction_tuple" and len(jcalls) == 1:
+            ok = is_name(e.func.value, u) and len(e.args) == 1 and is_name(e.args[0], v)
+            why = "pair comprehension does not encode (left, right)"
     L.check(ok, "R2", f.short, "each consecutive pair (prev, this) encoded once, prev := this afterwards", why, f.loc())
     # no shortcut exit: the only early return is the "no fragment at all" case (StopIteration of the first next())
     early = []
